@@ -40,8 +40,7 @@ CHECKS['C07'] = (
     'manip.py and the get_basis pipeline + exact-rational span check of the implementation output',
     'Proof (on the model): uncontract_segmented_spec / shape, removeFree_spec (single-momentum shells), span_zeroRow and zeroRow_support for one '
     'zeroing step of optimize_general (Mathlib Submodule.span over Q), literals and call order regenerated from manip.py/api.py. Tie: exact shell-list '
-    'equality model = implementation per element, directly and through 12 flag combinations. Partial: the induction of span_zeroRow over all free '
-    'primitives of a shell is not mechanised; span equality and the non-zero count of the real output are decided by exact Gaussian elimination in the harness.',
+    'equality model = implementation per element, directly and through 12 flag combinations. span_zeroAll: the whole sweep over all free primitives keeps the span (induction over the (row, column) pairs; rows pairwise different as the code requires). Partial: the list-level optimizeShell is tied to zeroAll by correspondence only; span equality and the non-zero count of the real output are decided by exact Gaussian elimination in the harness.',
     BASE_NOTE + 'Faithful hypothesis; Fraction arithmetic of CPython for the span oracle.', '6/C07')
 CHECKS['C08'] = (
     'Lean 4 theorems (prune_shell output has pairwise distinct exponent values and no dead primitive, prune_basis output has no duplicate shell, '
@@ -51,7 +50,9 @@ CHECKS['C08'] = (
     'get_basis always reaches it when a contraction option is set (decide over the regenerated block list). The remaining rules (type tags, duplicate '
     'columns, function_types) are checked on every explored result by the Lean validator model (correspondence-checked against validate_data) and by '
     'the library validator: 2^6 option combinations x augmentation on store samples (exhaustive over the store in the thorough tier) and generated dictionaries. '
-    'Partial: preservation lemmas per operation for the rules prune does not repair are not proved.',
+    'Whole-rule theorems: pruneShell_output_valid (every validator rule holds for what prune_shell returns, given a semantically well-formed, tagged, positive input; '
+    '"no duplicate contraction" is the one hypothesis), pruneShell(s)_identity_on_valid (pruning valid data changes nothing), uncontractGeneral_valid (validateElement = none for '
+    'everything uncontract_general returns on a valid element). Partial: the same closure for make_general / uncontract_spdf / segmented / optimize_general is not proved (duplicate contractions across merged shells are the known finding F10b).',
     BASE_NOTE + 'jsonschema package for the generic schema part.', '6/C08')
 
 CHECKS['C01'] = (
